@@ -59,6 +59,10 @@ def gen_cases(rng, n, tier):
                         'expect': [N.exp_big(v), 'b|1'], 'tag': 'new', 'desc': 'BigNum::new(%d)' % v,
                         'tags': ['new>=2^32'] if abs(v) >= 2 ** 32 else [], 'trivial': abs(v) < 2 ** 31})
             continue
+        if rng.random() < 0.04:
+            # object history: the same BigNum objects observed and mutated in place again and again (see numlib.big_history)
+            out.append(N.big_history(rng, maxl=min(maxl, 6)))
+            continue
         if rng.random() < 0.02:
             # very long operands (32..80 limbs) made of RUNS of equal limbs (ffffffff.., 0.., 1..): sub-quadratic
             # multiplication fast paths and long carry ripples live here; multiplication / addition only
@@ -161,7 +165,7 @@ def main(tier, seed):
     cov.update(extra)
     assumptions = ['Python int is the oracle', 'operands built with BigNum::from_vec + minus(), never parsed from decimal text',
                    'harness built with opt-level 2 but overflow checks and debug assertions ON; division operands capped at %d limbs (cubic cost)' % (8 if tier == 'quick' else 12)]
-    minimum = {'evaluations': (n, 5000), 'very long operands': (hist.get('very_long_operands', 0), 100), 'op:div': (hist.get('op:div', 0), 200), 'new': (hist.get('new', 0), 100)}
+    minimum = {'evaluations': (n, 5000), 'object histories': (hist.get('object_history', 0), 300), 'very long operands': (hist.get('very_long_operands', 0), 100), 'op:div': (hist.get('op:div', 0), 200), 'new': (hist.get('new', 0), 100)}
     return rep.finish(cov, assumptions, t0, minimum)
 
 
